@@ -154,3 +154,16 @@ JOBS['C10'] = [
      'defs': {'LL': 1, 'TSET': 5},
      'expect_reach': ['end', 'found', 'notfound'], 'timeout': {'quick': 280, 'thorough': 1700}, 'max_steps': 200000000, 'native_timeout': 60},
 ]
+
+# ---------------------------------------------------------------- C14
+META['C14'] = {
+    'bounds': {'quick': '26 pattern templates (literal and operator patterns, anchors, word boundaries, empty-matching, up to 2 groups) with symbolic placeholder characters over {a A 1 U+00E9} x replacement of 2 symbolic pieces (literal, \\0..\\3, escaped character) x g on/off x ignorecase on/off x target line of <=2 characters over that alphabet plus space, inside a 3-line buffer',
+               'thorough': 'target line of <=3 characters, 3 replacement pieces'},
+    'outside': 'longer lines and replacements; patterns outside the templates; the remembered-pattern form s//rep/ (second job)',
+    'assumptions': ['reference semantics of the scan: the original line, left to right, non-overlapping, one character forward after an empty match; judged in whole-line context (harness/ref_re.h)'],
+}
+JOBS['C14'] = [
+    {'name': 'substitute', 'harness': 'c14_sub.c', 'units': 'ALL',
+     'defs': {'quick': {'LL': 2, 'NP': 2}, 'thorough': {'LL': 3, 'NP': 2, 'SYMIC': 1, 'MAXREF': 3}}, 'variants': [{'TSET': 0}, {'TSET': 1}],
+     'expect_reach': ['end', 'match'], 'timeout': {'quick': 280, 'thorough': 1700}},
+]
